@@ -1,5 +1,5 @@
 //! Pure pocket-types commands: match, constructors, accessors.
-use crate::tok::*;
+use crate::tok::{self, *};
 use pocket_types::{Event, Filter, Id, Kind, OwnedEvent, OwnedFilter, OwnedTags, Pubkey, Sig, Tags, Time};
 
 pub struct EvParts {
@@ -135,4 +135,125 @@ pub fn cmd_matchraw(t: &mut Toks) -> String {
 #[allow(dead_code)]
 pub fn tags_to_parts(tags: &Tags) -> Vec<Vec<Vec<u8>>> {
     tags.iter().map(|t| t.map(|s| s.to_vec()).collect()).collect()
+}
+
+// ---------------- Hll8 ----------------
+use pocket_types::Hll8;
+
+fn regs_hex(h: &Hll8) -> String {
+    // to_hex_string is hex of the 256 registers; re-decode to print canonical hex of raw regs
+    h.to_hex_string()
+}
+
+fn estimate(h: &Hll8) -> String {
+    let hc = *h;
+    match std::panic::catch_unwind(move || hc.estimate_count()) {
+        Ok(n) => format!("{n}"),
+        Err(_) => "panic".to_string(),
+    }
+}
+
+pub fn cmd_hll_add(t: &mut Toks) -> String {
+    let mut p_el = |t: &mut Toks| -> (Vec<u8>, u128) { (t.b(), t.n()) };
+    let a = t.list(&mut p_el);
+    let b = t.list(&mut p_el);
+    let mut errs = String::new();
+    let mut addall = |h: &mut Hll8, l: &[(Vec<u8>, u128)]| {
+        for (i, o) in l {
+            match h.add_element(&arr32(i), *o as usize) {
+                Ok(()) => errs.push('o'),
+                Err(_) => errs.push('e'),
+            }
+        }
+    };
+    let mut ra = Hll8::new();
+    addall(&mut ra, &a);
+    let mut rb = Hll8::new();
+    addall(&mut rb, &b);
+    let mut rab = Hll8::new();
+    addall(&mut rab, &a);
+    addall(&mut rab, &b);
+    let mut rba = Hll8::new();
+    addall(&mut rba, &b);
+    addall(&mut rba, &a);
+    let mut mab = ra;
+    mab += rb;
+    let mut mba = rb;
+    mba += ra;
+    let mut maa = ra;
+    maa += ra;
+    // associativity with a third sketch (rab)
+    let mut l = ra;
+    l += rb;
+    l += rab;
+    let mut r2 = rb;
+    r2 += rab;
+    let mut r = ra;
+    r += r2;
+    let rt = match Hll8::from_hex_string(&rab.to_hex_string()) {
+        Ok(h) => h.to_hex_string() == rab.to_hex_string(),
+        Err(_) => false,
+    };
+    format!(
+        "hll_add ra={} rb={} rab={} rba={} mab={} mba={} maa={} assoc={} errs={} hex={} rt={} est={} esta={}",
+        regs_hex(&ra), regs_hex(&rb), regs_hex(&rab), regs_hex(&rba), regs_hex(&mab), regs_hex(&mba), regs_hex(&maa),
+        regs_hex(&l) == regs_hex(&r), errs, hex(rab.to_hex_string().as_bytes()), rt, estimate(&rab), estimate(&ra)
+    )
+}
+
+pub fn cmd_hll_hex(t: &mut Toks) -> String {
+    let s = t.b();
+    let st = match String::from_utf8(s) {
+        Ok(s) => s,
+        Err(_) => return "hll_hex imp=nonutf8".to_string(),
+    };
+    match Hll8::from_hex_string(&st) {
+        Ok(h) => {
+            let ex = h.to_hex_string();
+            let zeros = tok::unhex(&ex).iter().filter(|b| **b == 0).count();
+            format!("hll_hex imp=ok regs={} export={} zeros={} est={}", ex, hex(ex.as_bytes()), zeros, estimate(&h))
+        }
+        Err(e) => format!("hll_hex imp=err:{}", crate::err_class(&e)),
+    }
+}
+
+pub fn cmd_hex(t: &mut Toks) -> String {
+    let n = t.n();
+    let s = t.b();
+    let r: Result<Vec<u8>, pocket_types::Error> = match n {
+        32 => Id::read_hex(&s).map(|i| i.as_slice().to_vec()),
+        33 => Pubkey::read_hex(&s).map(|i| i.as_slice().to_vec()),
+        64 => Sig::read_hex(&s).map(|i| i.as_slice().to_vec()),
+        _ => return "hex r=unsupported".to_string(),
+    };
+    match r {
+        Ok(v) => {
+            let w = match n {
+                32 => Id::from_bytes(arr32(&v)).as_hex_string(),
+                33 => Pubkey::from_bytes(arr32(&v)).as_hex_string(),
+                _ => format!("{}", Sig::from_bytes(arr64(&v))),
+            };
+            format!("hex r=ok {} w={}", hex(&v), hex(w.as_bytes()))
+        }
+        Err(e) => format!("hex r=err:{}", crate::err_class(&e)),
+    }
+}
+
+/// statistical envelope: `count` pseudo-random 32-byte elements (xorshift64*, seeded), offset 16
+pub fn cmd_hll_env(t: &mut Toks) -> String {
+    let count = t.n() as u64;
+    let mut x = (t.n() as u64) | 1;
+    let mut h = Hll8::new();
+    for _ in 0..count {
+        let mut el = [0u8; 32];
+        for k in 0..4 {
+            x ^= x >> 12;
+            x ^= x << 25;
+            x ^= x >> 27;
+            let v = x.wrapping_mul(0x2545F4914F6CDD1D);
+            el[k * 8..k * 8 + 8].copy_from_slice(&v.to_le_bytes());
+        }
+        h.add_element(&el, 16).unwrap();
+    }
+    format!("hll_env est={}", estimate(&h))
 }
